@@ -33,12 +33,18 @@ func RunC14(ep *core.Episode) {
 	o := SrvOpts{Stream: true}
 	// values 0..2 keep their meaning as a three-way pick (recorded tapes); 3..5: the same sizes with a
 	// second connection streaming a request body at the same time
-	bk := tp.Choose("bufsize", 6)
+	// 6..8: the same sizes with WithSenseClientDisconnection (a second goroutine may sit in a read on the connection)
+	bk := tp.Choose("bufsize", 9)
 	o.BufSize = []int{4096, 8192, 16384}[bk%3]
-	twoConn := bk >= 3
+	twoConn := bk >= 3 && bk < 6
+	senseDisc := bk >= 6
 	o.ReturnToTransport = tp.Chance("returnmode", 1, 6)
 	if o.ReturnToTransport {
 		ep.Probe("return-to-transport")
+	}
+	if senseDisc && !o.ReturnToTransport {
+		o.SenseDisconnect = true
+		ep.Probe("sense-disconnect")
 	}
 	stall := !o.ReturnToTransport && ep.Param("stall") != "off" && tp.Chance("stall", 1, 6)
 	if stall {
@@ -152,6 +158,9 @@ func RunC14(ep *core.Episode) {
 		xBody = core.PatternBytes(99, tp.Pick("xlen", 100, 5000, 8192, 9000, 20000))
 	}
 	srv.Eng.NoRoute(func(c context.Context, ctx *app.RequestContext) {
+		if o.SenseDisconnect {
+			ep.S.Yield("handler.enter") // a goroutine hertz may have started just now reaches its park point first
+		}
 		uri := string(ctx.Request.Header.RequestURI())
 		if twoConn && uri == "/xconn" {
 			xRan = true
